@@ -510,7 +510,7 @@ func (m *monitor) callbackCase(id string) {
 // dry module escrow): the cases in which only the cache context protects the receiver.
 func failsHalfWay(s *spec, done []string) bool {
 	switch s.DenomKind {
-	case "paused", "siphon", "delay", "extdry":
+	case "paused", "siphon", "delay", "extdry", "returns-false":
 		return true
 	}
 	for _, d := range done {
